@@ -73,7 +73,7 @@ fn gen_doc(rng: &mut Rng, depth: usize, out: &mut String) {
     let ws = |rng: &mut Rng, out: &mut String| { for _ in 0..rng.below(3) { out.push(*rng.pick(&[' ', ' ', '\n', '\t', '\r'])); } };
     match if depth == 0 { rng.below(4) } else { rng.below(7) } {
         0 => out.push_str(*rng.pick(&["0", "-0", "1", "12", "-3.25", "1e9", "2E-3", "0.5e+10", "1234567890", "-1.0"][..])),
-        1 => { out.push('"'); for _ in 0..rng.below(5) { out.push_str(*rng.pick(&["a", "é", "嗨", "Ā", "一", "ı", "İ", "\u{2028}", "\u{10000}", "\\n", "\\\"", "\\\\", "\\/", "\\u00e9", "\\uD800", " ", "\u{7f}", "💖", "\\b\\f\\r\\t"][..])); } out.push('"'); }
+        1 => { out.push('"'); for _ in 0..rng.below(5) { out.push_str(*rng.pick(&["a", "é", "嗨", "Ā", "一", "ı", "İ", "\u{2028}", "\u{10000}", "\u{fffd}", "\u{f000}", "\u{ffff}", "\u{10ffff}", "\u{7ff}", "\u{800}", "\u{d7ff}", "\u{e000}", "\\n", "\\\"", "\\\\", "\\/", "\\u00e9", "\\uD800", " ", "\u{7f}", "💖", "\\b\\f\\r\\t"][..])); } out.push('"'); }
         2 => out.push_str(*rng.pick(&["true", "false", "null"][..])),
         3 => out.push_str(*rng.pick(&["[]", "{}", "[ ]", "{ }"][..])),
         4 | 5 => { out.push('['); ws(rng, out); let n = rng.range(1, 3); for i in 0..n { if i > 0 { ws(rng, out); out.push(','); ws(rng, out); } gen_doc(rng, depth - 1, out); } ws(rng, out); out.push(']'); }
@@ -101,6 +101,12 @@ fn main() {
                 // non-ASCII characters whose low byte is an ASCII digit, hex digit or control code; characters of every UTF-8 length
                 "\"一\"", "[\"Ā\"]", "{\"名\": \"東京\"}", "1ı", "\"\\u00İ0\"", "１", "[１]", "\"\u{10000}\"", "\"\u{1F600}\"", "\"\u{E0041}\"", "tru\u{FF45}", "\u{2003}1", "１.5", "-１"];
             for n in near { all.push(n.to_string()); }
+            // the first and last character of every UTF-8 leading-byte class, inside a string, followed by each kind of
+            // thing that can follow a character there (closing quote, escape, raw control character, non-ASCII, ASCII, end)
+            for cp in [0x7Fu32, 0x80, 0x7FF, 0x800, 0xFFF, 0x1000, 0xCFFF, 0xD000, 0xD7FF, 0xE000, 0xEFFF, 0xF000, 0xFEFF, 0xFF21, 0xFFFD, 0xFFFF, 0x10000, 0x3FFFF, 0x40000, 0xFFFFF, 0x100000, 0x10FFFF] {
+                let c = char::from_u32(cp).unwrap();
+                for t in [format!("\"{}\"", c), format!("\"{}x\"", c), format!("\"{}\\n\"", c), format!("\"{}\t\"", c), format!("\"{}{}\"", c, c), format!("\"{}é\"", c), format!("\"{}", c),
+                    format!("[\"{}\", \"a\"]", c), format!("\"{}\"x\"", c), format!("{{\"{}\": \"{}{}{}\"}}", c, c, c, c), format!("{}", c), format!("1{}", c)] { all.push(t); } }
             let ndocs = if thorough { 60000 } else { 6000 };
             for _ in 0..ndocs { let mut s = String::new(); if rng.chance(1, 3) { s.push(' '); } let d = rng.range(0, 4); gen_doc(&mut rng, d, &mut s); if rng.chance(1, 4) { s.push('\n'); }
                 // one-edit mutations of a third of them
